@@ -142,15 +142,6 @@ def clientSend (sz : Sizes) (c : Conn) (t : Int) : Conn × List Event × Except 
       (r2.1, r2.2, .ok r)
   else (c, [], .ok none)
 
-/-- `UdpClient.update()` when no datagram is waiting on the socket (client.py:189-213):
-    `conn.update()` first; a DROPPED connection neither receives nor sends; otherwise the send half -/
-def clientTick (sz : Sizes) (c : Conn) (t : Int) : Conn × List Event × Except Err (Option Packet) :=
-  let r1 := clientUpdate c t
-  if r1.1.status = .dropped then (r1.1, r1.2, .ok none)
-  else
-    let r2 := clientSend sz r1.1 t
-    (r2.1, r1.2 ++ r2.2.1, r2.2.2)
-
 /-- operations of a history: the endpoint operations of `ConnStep`, `ClientServerConnection.update()`,
     `ServerClientConnection.update()` and the send half of `UdpClient.update()`, each at a clock value -/
 inductive XOp
@@ -181,5 +172,38 @@ def xrun (E : Env) (c : Conn) : List XOp → Conn × List Out
     let r1 := xstep E c op
     let r2 := xrun E r1.1 ops
     (r2.1, r1.2 ++ r2.2)
+
+/-! ### the whole of `UdpClient.update()` -/
+
+/-- the receive half of `UdpClient.update()` as repaired by 3918c48 (client.py:197-208): every
+    datagram waiting on the socket is read, in arrival order, at this call's clock value; an
+    exception (a header that does not decode, a handler that raises) propagates out of `update()`
+    and leaves the rest unread.  Result: state, outputs, datagrams left unread, the exception. -/
+def clientDrain (E : Env) (c : Conn) (t : Int) : List Bytes → Conn × List Out × List Bytes × Option Err
+  | [] => (c, [], [], none)
+  | d :: rest =>
+    match decodeHdr false d with
+    | .error e => (c, [], rest, some (Err.ofWire e))
+    | .ok h =>
+      let r := recvDatagram E.C E.R c t h d
+      match r.2.2 with
+      | .raised e => (r.1, r.2.1.map Out.ev ++ [.ret (.raised e)], rest, some e)
+      | ret =>
+        let r2 := clientDrain E r.1 t rest
+        (r2.1, (r.2.1.map Out.ev ++ [.ret ret]) ++ r2.2.1, r2.2.2.1, r2.2.2.2)
+
+/-- `UdpClient.update()` at clock `t` with `inbox` = the datagrams waiting on the socket:
+    `conn.update()`; nothing more when DROPPED; else drain the socket, then the send half.
+    Result: state, outputs, datagrams left unread. -/
+def clientUpdateFull (E : Env) (c : Conn) (t : Int) (inbox : List Bytes) : Conn × List Out × List Bytes :=
+  let r1 := clientUpdate c t
+  if r1.1.status = .dropped then (r1.1, r1.2.map Out.ev, inbox)
+  else
+    let r2 := clientDrain E r1.1 t inbox
+    match r2.2.2.2 with
+    | some e => (r2.1, r1.2.map Out.ev ++ r2.2.1 ++ [.raised e], r2.2.2.1)
+    | none =>
+      let r3 := emitOuts E (clientSend E.sz r2.1 t)
+      (r3.1, r1.2.map Out.ev ++ r2.2.1 ++ r3.2, r2.2.2.1)
 
 end Mpgs.Conn
